@@ -1069,6 +1069,11 @@ type family struct {
 	step int // 0 = doubling, else linear step
 }
 
+// refused families: the call is refused because of its allowed list (empty, invalid or compound entry); Satisfies must not
+// have expanded the expression by then, so the model cost of these measurements contains no expansion term and only
+// Satisfies is measured
+func (f family) refused() bool { return strings.HasPrefix(f.name, "refused-") }
+
 func rep(s, sep string, n int) string {
 	parts := make([]string, n)
 	for i := range parts {
@@ -1216,6 +1221,25 @@ func families() []family {
 		{"allowed-entry-nested", func(n int) (string, []string) {
 			return "MIT", []string{strings.Repeat("(", n) + "MIT" + strings.Repeat(")", n), "ISC AND " + strings.Repeat("(", n) + "MIT OR Zlib" + strings.Repeat(")", n)}
 		}, scale(512, 4096), 0},
+		// two alternatives that repeat ONE id many times, the shorter with one extra id that sorts last (subset / subsequence
+		// tests between alternatives that backtrack)
+		{"repeated-id-alternatives", func(n int) (string, []string) {
+			return "(" + rep("MIT", " AND ", n) + " AND Zlib) OR (" + rep("MIT", " AND ", 2*n) + ")", []string{"ISC"}
+		}, scale(64, 256), 0},
+		{"repeated-id-chain", func(n int) (string, []string) {
+			return rep("MIT", " AND ", n) + " OR " + rep("ISC", " OR ", n), []string{"Zlib", "MIT"}
+		}, scale(256, 1024), 0},
+		// calls that are REFUSED because of the allowed list: the expression must not have been expanded by then (the
+		// exponential family of the known finding, with an empty list, an invalid entry, a compound entry)
+		{"refused-empty-list", func(n int) (string, []string) {
+			return "(" + rep("MIT OR ISC", ") AND (", n) + ") AND Zlib", []string{}
+		}, scale(64, 128), 0},
+		{"refused-invalid-entry", func(n int) (string, []string) {
+			return "(" + rep("MIT OR ISC", ") AND (", n) + ") AND Zlib", []string{"MIT", "NOT-A-LICENSE"}
+		}, scale(64, 128), 0},
+		{"refused-compound-entry", func(n int) (string, []string) {
+			return "(" + rep("MIT OR ISC", ") AND (", n) + ") AND Zlib", []string{"MIT AND ISC", "Zlib"}
+		}, scale(64, 128), 0},
 		{"many-spaces", func(n int) (string, []string) {
 			return "MIT" + strings.Repeat(" ", n) + "AND ISC", []string{"MIT", "ISC"}
 		}, scale(65536, 1<<20), 0},
@@ -1434,7 +1458,13 @@ func init() {
 			steps := 0
 			for n := 1; n <= f.max; {
 				e, a := f.gen(n)
-				ks, ok := modelStats(e)
+				statsOf := e
+				if f.refused() {
+					// the cost model of a refused call has no expansion term: take the token counts from a text with the same
+					// tokens and a linear expansion (the model driver would otherwise materialise 2^n alternatives)
+					statsOf = strings.ReplaceAll(e, " AND ", " OR ")
+				}
+				ks, ok := modelStats(statsOf)
 				if !ok {
 					res.Notes = append(res.Notes, "driver K failed for "+f.name)
 					break
@@ -1444,7 +1474,13 @@ func init() {
 					ab += len(x)
 				}
 				stop := false
+				if f.refused() {
+					ks.alts, ks.slots, ks.work = 1, ks.tokens, 0
+				}
 				for fn := 0; fn < 3; fn++ {
+					if f.refused() && fn != 0 {
+						continue
+					}
 					m := measure(fn, e, a)
 					res.Evaluations++
 					nontrivial(fmt.Sprintf("%s|%d|%d", f.name, n, fn))
